@@ -251,6 +251,54 @@ def r2_nan_not_error(ctx):
                           f"the slice is empty and {short} raises "
                           f"ValueError - the feature (and rate_quality) "
                           f"raise instead of yielding NaN")
+    # np.gradient needs at least two samples
+    PRESERVE = ("gaussian_filter1d", "median_filter", "uniform_filter1d",
+                "abs", "copy", "array", "asarray")
+    for name, f in sorted(feats.items()):
+        Rg = None
+        for c in calls_in(f):
+            if (call_name(c) or "") not in ("np.gradient",
+                                            "numpy.gradient") or not c.args \
+                    or not isinstance(c.args[0], ast.Name):
+                continue
+            x = c.args[0].id
+            same_size = {x}
+            if Rg is None:
+                Rg = Resolver(f)
+            v = Rg.reaching_value(c.args[0]) if hasattr(
+                c.args[0], "_parent") else None
+            for _ in range(4):
+                if isinstance(v, ast.Call) and (call_name(v) or "").split(
+                        ".")[-1] in PRESERVE and v.args and isinstance(
+                        v.args[0], ast.Name):
+                    same_size.add(v.args[0].id)
+                    nxt = Rg.reaching_value(v.args[0]) if hasattr(
+                        v.args[0], "_parent") else None
+                    v = nxt
+                else:
+                    break
+            ok = False
+            for a in conditions_at(c):
+                nd = a.node
+                if not (a.pol and isinstance(nd, ast.Compare)
+                        and len(nd.ops) == 1 and isinstance(
+                            nd.comparators[0], ast.Constant)):
+                    continue
+                lt = norm(nd.left)
+                about = any(lt in (f"len({n_})", f"{n_}.size",
+                                   f"{n_}.shape[0]") for n_ in same_size)
+                k = nd.comparators[0].value
+                if about and isinstance(k, int) and (
+                        (isinstance(nd.ops[0], ast.Gt) and k >= 1)
+                        or (isinstance(nd.ops[0], ast.GtE) and k >= 2)):
+                    ok = True
+            ctx.check(ok, c, f"{name}: np.gradient({x}) on at least two "
+                      "samples",
+                      f"feature {name} calls np.gradient({x}) without a "
+                      f"test that `{x}` has at least two samples: for a "
+                      "contact point that leaves a single sample in that "
+                      "part np.gradient raises ValueError and the feature "
+                      "(and rate_quality) raise instead of yielding NaN")
     # compute_features converts every feature to float (bool/NaN safe)
     cf = meths["compute_features"]
     ok = any(isinstance(c, ast.Call) and call_name(c) == "float"
